@@ -1,12 +1,106 @@
 (** Properties_C03.v — statements only.  C03: generated code computes what the model's equations say.
     Expression layer: the printer model [gen] (GenDefs, tied string-exactly to Generator::equationCode on every
-    run), the readers [readC]/[readPy] (GramDefs: how C / Python parse the text), the intended reading [tr]
-    and the safe class [safe_b] (ReadDefs). *)
+    run), the readers [readC]/[readPy] (GramDefs: how C / Python parse the text), the intended reading [tr],
+    the safe class [safe_b] and re-association [norm] (ReadDefs), exact values [eval] (EvalDefs). *)
 From Coq Require Import String List Bool.
-From LC Require Import AstDefs GenDefs GramDefs ReadDefs CGramDefs PyGramDefs GenWitness.
+From LC Require Import AstDefs GenDefs GramDefs GramSpec GramProofs ReadDefs CGramDefs PyGramDefs
+  EvalDefs EvalProofs ReadProofs LexProofs GenProofs GenWitness.
 Local Open Scope string_scope.
 
-(** Where the faithful model of the unchanged generator does NOT print what the equation says
+(** * The text printed for an AST of the safe class is read as the equation says.
+    [safeC]/[safePy] (ReadDefs.safe_b) is the decidable class "every operand sits at a grammar level its
+    position accepts, or is an associative continuation"; it excludes exactly the shapes of the refutation
+    theorems below.  Up to [norm] = re-association of + * && || chains and -(a*b) = (-a)*b. *)
+Theorem C03_gen_reads_back_partial_C : forall a,
+  safeC a = true -> exists T, readC (gen_C a) = Some T /\ norm T = norm (trC a).
+Proof. exact GenProofs.gen_reads_back_C. Qed.
+Print Assumptions C03_gen_reads_back_partial_C.
+
+Theorem C03_gen_reads_back_partial_Py : forall a,
+  safePy a = true -> exists T, readPy (gen_Py a) = Some T /\ norm T = norm (trPy a).
+Proof. exact GenProofs.gen_reads_back_Py. Qed.
+Print Assumptions C03_gen_reads_back_partial_Py.
+
+(** its two halves: the lexer yields the token stream [gent], and [gent] parses to the intended tree *)
+Theorem C03_lex_gen_C : forall a,
+  safeC a = true -> lexC (gen_C a) = Some (GenTok.gent LC profile_C a).
+Proof. exact LexProofs.lex_gen_C. Qed.
+Print Assumptions C03_lex_gen_C.
+
+Theorem C03_lex_gen_Py : forall a,
+  safePy a = true -> lexPy (gen_Py a) = Some (GenTok.gent LPy profile_Py a).
+Proof. exact LexProofs.lex_gen_Py. Qed.
+Print Assumptions C03_lex_gen_Py.
+
+Theorem C03_parse_gent_C : forall a,
+  safeC a = true -> exists T, parseC (GenTok.gent LC profile_C a) = Some T /\ norm T = norm (trC a).
+Proof. exact ReadProofs.parse_gent_C. Qed.
+Print Assumptions C03_parse_gent_C.
+
+Theorem C03_parse_gent_Py : forall a,
+  safePy a = true -> exists T, parsePy (GenTok.gent LPy profile_Py a) = Some T /\ norm T = norm (trPy a).
+Proof. exact ReadProofs.parse_gent_Py. Qed.
+Print Assumptions C03_parse_gent_Py.
+
+(** the executable oracle that the check evaluates on the library's own text accepts the whole safe class *)
+Theorem C03_safe_reads_as_C : forall a, safeC a = true -> reads_asC (gen_C a) a = true.
+Proof. exact GenProofs.safe_reads_as_C. Qed.
+Print Assumptions C03_safe_reads_as_C.
+
+Theorem C03_safe_reads_as_Py : forall a, safePy a = true -> reads_asPy (gen_Py a) a = true.
+Proof. exact GenProofs.safe_reads_as_Py. Qed.
+Print Assumptions C03_safe_reads_as_Py.
+
+(** * The executable reader is the grammar: the fuelled precedence-climbing function and the big-step
+    relation PExpr (GramSpec) accept the same token lists with the same trees. *)
+Theorem C03_parse_sound : forall L ts t, parse L ts = Some t -> PExpr L 1 ts t nil.
+Proof. exact GramProofs.pratt_sound. Qed.
+Print Assumptions C03_parse_sound.
+
+Theorem C03_parse_complete : forall L ts t, PExpr L 1 ts t nil -> parse L ts = Some t.
+Proof. exact GramProofs.pratt_complete. Qed.
+Print Assumptions C03_parse_complete.
+
+(** * Values.  Re-association does not change the value over the rationals, for every interpretation of
+    variables, literals and function names; so the printed text of a safe AST has the value of the equation. *)
+Theorem C03_norm_sound : forall E t, eval E (norm t) = eval E t.
+Proof. exact EvalProofs.norm_sound. Qed.
+Print Assumptions C03_norm_sound.
+
+Theorem C03_gen_value_C : forall E a,
+  safeC a = true -> exists T, readC (gen_C a) = Some T /\ eval E T = eval E (trC a).
+Proof. exact GenProofs.gen_value_C. Qed.
+Print Assumptions C03_gen_value_C.
+
+Theorem C03_gen_value_Py : forall E a,
+  safePy a = true -> exists T, readPy (gen_Py a) = Some T /\ eval E T = eval E (trPy a).
+Proof. exact GenProofs.gen_value_Py. Qed.
+Print Assumptions C03_gen_value_Py.
+
+(** * The two profiles agree: with the Python helper functions interpreted by their definitions
+    (eq_func ... not_func, xor_func = xor), both generated texts denote the same value. *)
+Theorem C03_profiles_agree : forall E a,
+  helpers_ok E -> plain_names a = true -> eval E (trPy a) = eval E (trC a).
+Proof. exact EvalProofs.profiles_agree. Qed.
+Print Assumptions C03_profiles_agree.
+
+Theorem C03_gen_profiles_agree : forall E a,
+  helpers_ok E -> plain_names a = true -> safeC a = true -> safePy a = true ->
+  exists TC TP, readC (gen_C a) = Some TC /\ readPy (gen_Py a) = Some TP /\ eval E TC = eval E TP.
+Proof. exact GenProofs.gen_profiles_agree. Qed.
+Print Assumptions C03_gen_profiles_agree.
+
+(* NOT PROVED (not modelled): scale_preserves_value — Analyser::scaleAst / scaleEquationAst insert
+   TIMES(CN factor, .) nodes so that every variable is read in the units of its equivalence class' primary
+   variable; no Coq model of this step exists.  It is only *observed* by the whole-model layer (generated models
+   with scaled connections, compared numerically with an independent evaluator), which found two defects
+   in it (C03-known-variable-on-lhs-not-scaled, C03-bare-rate-on-rhs-voi-scaling). *)
+(* NOT PROVED (not modelled): emit_dependencies_first / emit_each_once — GeneratorImpl::generateEquationCode's
+   dependency-first emission into initialiseVariables / computeComputedConstants / computeRates /
+   computeVariables.  Observed only: the compiled / executed code of every generated model yields the
+   reference values after each of the four phases. *)
+
+(** * Where the faithful model of the unchanged generator does NOT print what the equation says
     (each witness replayed on the real library; known findings C03-...). *)
 
 Theorem C03_gen_refuted_not :
